@@ -136,6 +136,90 @@ theorem fastPeak_translate (L : ℚ → ℚ) (mask frame : ℤ → ℤ → ℚ) 
   · show ev.rx + ((Gen.shift 0 (p.2 + t.2) c : ℤ) : ℚ) = ev.rx + ((Gen.shift 0 p.2 c : ℤ) : ℚ) + (t.2 : ℚ)
     unfold Gen.shift; push_cast; ring
 
+/-- the minimum over the frame is invariant under a cyclic roll (the pixels are only permuted) -/
+theorem minList_flat_roll (frame : ℤ → ℤ → ℚ) (fy fx : ℕ) (hfy : 0 < fy) (hfx : 0 < fx) (t0 t1 : ℤ) :
+    minList (flat (fun yy xx => frame ((yy - t0) % fy) ((xx - t1) % fx)) fy fx) = minList (flat frame fy fx) := by
+  apply minList_eq_of_mem_iff _ _ (flat_ne_nil _ fy fx hfy hfx)
+  intro v
+  rw [mem_flat, mem_flat]
+  have hy : (0 : ℤ) < fy := by exact_mod_cast hfy
+  have hx : (0 : ℤ) < fx := by exact_mod_cast hfx
+  constructor
+  · rintro ⟨y, x, _, _, rfl⟩
+    exact ⟨(y - t0) % fy, (x - t1) % fx, ⟨Int.emod_nonneg _ (by omega), Int.emod_lt_of_pos _ hy⟩,
+      ⟨Int.emod_nonneg _ (by omega), Int.emod_lt_of_pos _ hx⟩, rfl⟩
+  · rintro ⟨y, x, hy', hx', rfl⟩
+    refine ⟨(y + t0) % fy, (x + t1) % fx, ⟨Int.emod_nonneg _ (by omega), Int.emod_lt_of_pos _ hy⟩,
+      ⟨Int.emod_nonneg _ (by omega), Int.emod_lt_of_pos _ hx⟩, ?_⟩
+    have e1 : ((y + t0) % fy - t0) % fy = y := by
+      rw [mod_sub_mod]; simp only [add_sub_cancel_right]; exact Int.emod_eq_of_lt hy'.1 hy'.2
+    have e2 : ((x + t1) % fx - t1) % fx = x := by
+      rw [mod_sub_mod]; simp only [add_sub_cancel_right]; exact Int.emod_eq_of_lt hx'.1 hx'.2
+    rw [e1, e2]
+
+/-- **Cyclic translation equivariance of the full-frame method, end to end (exact arithmetic)**: rolling
+the frame content cyclically by `t` and moving the peak by `t` moves centre and refined position by
+`t` and leaves height and elevation unchanged, as long as the peak's window lies inside the frame
+before and after (so that the window does not straddle the seam). -/
+theorem fullPeak_cyclic_translate (L : ℚ → ℚ) (mask frame : ℤ → ℤ → ℚ) (fy fx : ℕ) (hfy : 0 < fy) (hfx : 0 < fx)
+    (c : ℕ) (hc : 0 < c) (p t : ℤ × ℤ)
+    (hin : ∀ y x : ℤ, 0 ≤ y → y < 2 * c → 0 ≤ x → x < 2 * c →
+      (0 ≤ p.1 - c + y ∧ p.1 - c + y < fy ∧ 0 ≤ p.2 - c + x ∧ p.2 - c + x < fx) ∧
+      (0 ≤ p.1 + t.1 - c + y ∧ p.1 + t.1 - c + y < fy ∧ 0 ≤ p.2 + t.2 - c + x ∧ p.2 + t.2 - c + x < fx)) :
+    let e := fullPeak L mask frame fy fx c p
+    let e' := fullPeak L mask (fun yy xx => frame ((yy - t.1) % fy) ((xx - t.2) % fx)) fy fx c (p.1 + t.1, p.2 + t.2)
+    e'.cy = e.cy + t.1 ∧ e'.cx = e.cx + t.2 ∧ e'.ry = e.ry + t.1 ∧ e'.rx = e.rx + t.2 ∧
+    e'.height = e.height ∧ e'.elev2 = e.elev2 := by
+  intro e e'
+  -- the log-scaled rolled frame is the rolled log-scaled frame
+  have hlog : logFrame L (fun yy xx => frame ((yy - t.1) % fy) ((xx - t.2) % fx)) fy fx
+      = fun yy xx => logFrame L frame fy fx ((yy - t.1) % fy) ((xx - t.2) % fx) := by
+    funext yy xx
+    unfold logFrame
+    rw [minList_flat_roll frame fy fx hfy hfx]
+  -- hence the frame-sized correlation map is rolled
+  have hcorr : ∀ y x : ℤ, fullCorr L mask (fun yy xx => frame ((yy - t.1) % fy) ((xx - t.2) % fx)) fy fx y x
+      = fullCorr L mask frame fy fx ((y - t.1) % fy) ((x - t.2) % fx) := by
+    intro y x
+    unfold fullCorr
+    rw [hlog]
+    exact conv_roll _ mask (logFrame L frame fy fx) fy fx t.1 t.2 y x
+  -- the windows of the two problems agree cell by cell
+  have hev : fullEval c (fun y x => cropPixel (fullCorr L mask (fun yy xx => frame ((yy - t.1) % fy) ((xx - t.2) % fx)) fy fx)
+        fy fx c (p.1 + t.1) (p.2 + t.2) y x)
+      = fullEval c (fun y x => cropPixel (fullCorr L mask frame fy fx) fy fx c p.1 p.2 y x) := by
+    apply fullEval_congr c hc
+    intro y x hy0 hy1 hx0 hx1
+    obtain ⟨h1, h2⟩ := hin y x hy0 hy1 hx0 hx1
+    simp only []
+    rw [C13.cropPixel_eq_window, C13.cropPixel_eq_window]
+    unfold window
+    rw [if_pos h2, if_pos h1, hcorr]
+    have e1 : (p.1 + t.1 - c + y - t.1) % (fy : ℤ) = p.1 - c + y := by
+      have : p.1 + t.1 - c + y - t.1 = p.1 - c + y := by ring
+      rw [this]; exact Int.emod_eq_of_lt h1.1 h1.2.1
+    have e2 : (p.2 + t.2 - c + x - t.2) % (fx : ℤ) = p.2 - c + x := by
+      have : p.2 + t.2 - c + x - t.2 = p.2 - c + x := by ring
+      rw [this]; exact Int.emod_eq_of_lt h1.2.2.1 h1.2.2.2
+    rw [e1, e2]
+  have he' : e' = reanchor (fullEval c (fun y x => cropPixel (fullCorr L mask frame fy fx) fy fx c p.1 p.2 y x))
+      (p.1 + t.1) (p.2 + t.2) c := by
+    show fullPeak L mask _ fy fx c (p.1 + t.1, p.2 + t.2) = _
+    rw [fullPeak_eq]; simp only []; rw [hev]
+  have he : e = reanchor (fullEval c (fun y x => cropPixel (fullCorr L mask frame fy fx) fy fx c p.1 p.2 y x)) p.1 p.2 c :=
+    fullPeak_eq L mask frame fy fx c p
+  rw [he', he]
+  set ev := fullEval c (fun y x => cropPixel (fullCorr L mask frame fy fx) fy fx c p.1 p.2 y x)
+  refine ⟨?_, ?_, ?_, ?_, rfl, rfl⟩
+  · show Gen.shift ev.cy (p.1 + t.1) c = Gen.shift ev.cy p.1 c + t.1
+    unfold Gen.shift; ring
+  · show Gen.shift ev.cx (p.2 + t.2) c = Gen.shift ev.cx p.2 c + t.2
+    unfold Gen.shift; ring
+  · show ev.ry + ((Gen.shift 0 (p.1 + t.1) c : ℤ) : ℚ) = ev.ry + ((Gen.shift 0 p.1 c : ℤ) : ℚ) + (t.1 : ℚ)
+    unfold Gen.shift; push_cast; ring
+  · show ev.rx + ((Gen.shift 0 (p.2 + t.2) c : ℤ) : ℚ) = ev.rx + ((Gen.shift 0 p.2 c : ℤ) : ℚ) + (t.2 : ℚ)
+    unfold Gen.shift; push_cast; ring
+
 /-- **Offset invariance of the full-frame method, end to end, for every peak (also windows that
 overlap the border)**: adding a constant to all pixels changes no output. -/
 theorem fullPeak_offset (L : ℚ → ℚ) (mask frame : ℤ → ℤ → ℚ) (fy fx : ℕ) (hfy : 0 < fy) (hfx : 0 < fx)
